@@ -401,21 +401,19 @@ def evaluate__lang(self: XPathFunction, context: ta.ContextType = None) -> bool:
     if not isinstance(context.item, EtreeElementNode):
         return False
     else:
-        try:
-            attr = context.item.value.attrib[XML_LANG]
-        except KeyError:
-            for e in copy(context).iter_ancestors():  # the caller's focus stays where it is
-                if isinstance(e, EtreeElementNode) and XML_LANG in e.value.attrib:
-                    lang = e.value.attrib[XML_LANG]
-                    if not isinstance(lang, str):
-                        return False
-                    break
-            else:
-                return False
+        # the xml:lang of the nearest ancestor-or-self element that has one
+        node: Any = context.item
+        while node is not None:
+            if isinstance(node, EtreeElementNode) and XML_LANG in node.value.attrib:
+                break
+            node = node.parent
         else:
-            if not isinstance(attr, str):
-                return False
-            lang = attr.strip()
+            return False
+
+        attr = node.value.attrib[XML_LANG]
+        if not isinstance(attr, str):
+            return False
+        lang = attr.strip()
 
         if '-' in lang:
             lang, _ = lang.split('-')
